@@ -9,6 +9,9 @@ for d in sorted(glob.glob(V + "/seeded/C*-*")):
     prop = name.split("-")[0]
     if want and prop not in want and name not in want:
         continue
+    if "superseded" in json.load(open(d + "/meta.json")):
+        print(name, "superseded (kept as recorded)", flush=True)
+        continue
     env = dict(os.environ, VERIF_NO_CROSS="1")
     if prop == "C20":
         env["VERIF_RUNS"] = "240"
